@@ -346,7 +346,10 @@ CHECKS["C12"] = {
             "Collection input: switch_ over a TSS<Int> input with a branch that folds added()/removed() into a running total and a branch that reads "
             "the size, every key history over {none,1,2}^4 x every set history over {none,+1,+2,-1,+1+2,+3}^4, with and without reload_on_ticked; the "
             "output must equal the selected branches run alone, each handed the WHOLE current set as its first delta when it is selected (also when the "
-            "flip coincides with a partial tick of the set).",
+            "flip coincides with a partial tick of the set). "
+            "Two-input branches: a branch whose first input is not required to be valid and one whose first input is passive, second input required; "
+            "every key x first-input x second-input history (T=4): a newly selected branch is evaluated at once when its second input holds a value, "
+            "whatever the state of the first.",
     "bounds": {"quick": "T=5 (3125 key histories x 32 input histories x 14 configurations)", "thorough": "T=6"},
     "min_counters": {"quick": {"nontrivial": 100000, "states": 3000, "switch.cases_sdr": 50000}},
     "assumptions": COMMON_ASSUMPTIONS + ["A collection output reset to the EMPTY collection at a switch counts as 'no output of the new branch yet'.",
